@@ -307,6 +307,14 @@ type sentinel struct {
 	revoked bool
 }
 
+// pillarEntry: collateral of one pillar as derived from the ledger
+type pillarEntry struct {
+	owner   types.Address
+	reg     int64
+	revoked bool
+	normal  bool // registered through Register (counts for the QSR cost of the next registration)
+}
+
 // qsrAndSentinel audits a contract with DepositQsr/WithdrawQsr (pillar, sentinel); for the sentinel contract also
 // Register/Revoke. Returns (znn liabilities, qsr liabilities).
 func (a *audit) qsrAndSentinel(contract types.Address) (*big.Int, *big.Int) {
@@ -314,13 +322,17 @@ func (a *audit) qsrAndSentinel(contract types.Address) (*big.Int, *big.Int) {
 	dep := map[types.Address]*big.Int{}
 	sents := map[types.Address]*sentinel{}
 	name := "pillar"
+	pillars := map[string]*pillarEntry{}
 	if contract == types.SentinelContract {
 		name = "sentinel"
 	} else {
 		for _, p := range g.EmbeddedGenesis.PillarConfig.Pillars {
 			znn.Add(znn, p.Amount)
+			pillars[p.Name] = &pillarEntry{owner: p.StakeAddress, reg: p.RegistrationTime, normal: p.PillarType == definition.NormalPillarType}
 		}
 	}
+	selRegP := sel(definition.ABIPillars.PackMethodPanic, definition.RegisterMethodName, "x", types.ZeroAddress, types.ZeroAddress, uint8(0), uint8(0))
+	selRevP := sel(definition.ABIPillars.PackMethodPanic, definition.RevokeMethodName, "x")
 	selDep := sel(definition.ABICommon.PackMethodPanic, definition.DepositQsrMethodName)
 	selWd := sel(definition.ABICommon.PackMethodPanic, definition.WithdrawQsrMethodName)
 	selReg := sel(definition.ABISentinel.PackMethodPanic, definition.RegisterSentinelMethodName)
@@ -397,6 +409,84 @@ func (a *audit) qsrAndSentinel(contract types.Address) (*big.Int, *big.Int) {
 				s.revoked = true
 				znn.Sub(znn, constants.SentinelZnnRegisterAmount)
 				qsr.Sub(qsr, constants.SentinelQsrDepositAmount)
+			}
+		case rc.sel4 == selRegP && contract == types.PillarContract:
+			if isRefund(rc.s, rc.d) {
+				a.refused++
+				continue
+			}
+			if len(uq)+len(uz) != 0 {
+				a.bad(name+":payout-on-register", "Register pays a user")
+				continue
+			}
+			param := new(definition.RegisterParam)
+			if err := definition.ABIPillars.UnpackMethod(param, definition.RegisterMethodName, rc.s.Data); err != nil {
+				panic(err)
+			}
+			// applied: the contract keeps the 15000 ZNN as collateral and burns the registration cost out of the caller's deposit
+			active := 0
+			for _, p := range pillars {
+				if p.normal && !p.revoked {
+					active++
+				}
+			}
+			cost := new(big.Int).Mul(constants.PillarQsrStakeIncreaseAmount, big.NewInt(int64(active)))
+			cost.Add(cost, constants.PillarQsrStakeBaseAmount)
+			d := get(rc.s.Address)
+			if d.Cmp(cost) < 0 {
+				a.bad(name+":register-without-deposit", "pillar %q of %v registered with a deposit of %v QSR (cost %v)", param.Name, rc.s.Address, d, cost)
+			}
+			burned := new(big.Int)
+			for _, x := range payQ {
+				if x.ToAddress == types.TokenContract {
+					burned.Add(burned, x.Amount)
+				}
+			}
+			if burned.Cmp(cost) != 0 {
+				a.bad(name+":register-burn-wrong", "pillar %q registered: %v QSR burned, cost %v", param.Name, burned, cost)
+			}
+			d.Sub(d, cost)
+			qsr.Sub(qsr, cost)
+			if rc.s.TokenStandard != types.ZnnTokenStandard || rc.s.Amount.Cmp(constants.PillarStakeAmount) != 0 {
+				a.bad(name+":register-collateral-wrong", "pillar %q registered with %v of %v", param.Name, rc.s.Amount, rc.s.TokenStandard)
+			}
+			if pillars[param.Name] != nil {
+				a.bad(name+":registered-twice", "pillar name %q registered a second time", param.Name)
+			}
+			pillars[param.Name] = &pillarEntry{owner: rc.s.Address, reg: rc.t, normal: true}
+			znn.Add(znn, constants.PillarStakeAmount)
+		case rc.sel4 == selRevP && contract == types.PillarContract:
+			pname := new(string)
+			if err := definition.ABIPillars.UnpackMethod(pname, definition.RevokeMethodName, rc.s.Data); err != nil {
+				panic(err)
+			}
+			p := pillars[*pname]
+			window := constants.PillarEpochLockTime + constants.PillarEpochRevokeTime
+			can := p != nil && !p.revoked && p.owner == rc.s.Address && (rc.t-p.reg)%window >= constants.PillarEpochLockTime
+			if len(uq)+len(uz) == 0 {
+				if can {
+					a.bad(name+":matured-withdrawal-refused", "Revoke of pillar %q by its owner %v inside the revoke window pays nothing", *pname, rc.s.Address)
+				}
+				a.refused++
+				continue
+			}
+			a.payouts++
+			switch {
+			case p == nil:
+				a.bad(name+":payout-without-entry", "Revoke of %q by %v pays although there is no such pillar", *pname, rc.s.Address)
+			case p.revoked:
+				a.bad(name+":released-twice", "Revoke of %q by %v pays the collateral a second time", *pname, rc.s.Address)
+			case p.owner != rc.s.Address:
+				a.bad(name+":released-to-stranger", "Revoke of %q (owner %v) by %v pays", *pname, p.owner, rc.s.Address)
+			case !can:
+				a.bad(name+":released-before-window", "Revoke of %q by %v pays outside the revoke window (t=%d, registered %d)", *pname, rc.s.Address, rc.t, p.reg)
+			}
+			if len(uz) != 1 || len(uq) != 0 || uz[0].Amount.Cmp(constants.PillarStakeAmount) != 0 || (p != nil && uz[0].ToAddress != p.owner) {
+				a.bad(name+":payout-amount-or-recipient-wrong", "Revoke of %q by %v pays %d ZNN sends / %d QSR sends with unexpected amounts or recipients", *pname, rc.s.Address, len(uz), len(uq))
+			}
+			if p != nil && !p.revoked {
+				p.revoked = true
+				znn.Sub(znn, constants.PillarStakeAmount)
 			}
 		case isRefund(rc.s, rc.d):
 			a.refused++
